@@ -833,6 +833,25 @@ void vrt_atomic_section(const char* name) {
   raw_puts(name);
   raw_puts("\n");
 }
+/* traced calls: the entry of the function is a scheduling point and an event of its own ("CALL"),
+   its body stays instrumented as usual (unlike an atomic section).  Lets trace validation pin every
+   call of e.g. mpsc_fifo_trypop to the model label that performs it, so that a retry loop the model
+   does not have (or lacks) is a divergence even though a failed attempt changes nothing. */
+static struct { uintptr_t lo, hi; } g_tr[MAXSEC];
+static int g_ntr;
+void vrt_trace_call(const char* name) {
+  for (int i = 0; i < g_nsyms; i++)
+    if (!strcmp(g_syms[i].name, name) && g_ntr < MAXSEC) {
+      g_tr[g_ntr].lo = g_syms[i].lo;
+      g_tr[g_ntr].hi = g_syms[i].hi;
+      g_ntr++;
+    }
+}
+static int in_traced(uintptr_t pc) {
+  for (int i = 0; i < g_ntr; i++)
+    if (pc >= g_tr[i].lo && pc < g_tr[i].hi) return 1;
+  return 0;
+}
 static int in_section(uintptr_t pc) {
   for (int i = 0; i < g_nsec; i++)
     if (pc >= g_sec[i].lo && pc < g_sec[i].hi) return 1;
@@ -1192,11 +1211,13 @@ void __tsan_vptr_read(void** a) { (void)a; }
 void __tsan_func_entry(void* call_pc) {
   (void)call_pc;
   vthread_t* s = self;
-  if (!g_on || !s || s->in_rt || !g_nsec) return;
+  if (!g_on || !s || s->in_rt || !(g_nsec || g_ntr)) return;
   uintptr_t pc = PC;
   if (in_section(pc)) {
     if (s->atomic_depth == 0) point("CALL", NULL, 0, 1, 1, -1, pc);
     s->atomic_depth++;
+  } else if (g_ntr && s->atomic_depth == 0 && in_traced(pc)) {
+    point("CALL", NULL, 0, 0, 1, -1, pc);
   }
 }
 void __tsan_func_exit(void) {
